@@ -70,7 +70,7 @@ def configs(quick):
     def one(label, rp, b="wide", b2="sym", extra=None):
         out.append((label, "flow", ["x0", "x1"], [b, b2], {}, rp, extra or {}))
 
-    general_bounds = ["wide", "unit", "off", "log"] if not quick else ["wide", "off"]
+    general_bounds = ["wide", "unit", "off", "log"] if not quick else ["wide", "off", "unit"]
     for b in general_bounds:
         one(f"default[{b}]", {"x0": "default"}, b)
         one(f"rescaletobounds[{b}]", {"rescaletobounds": {"parameters": ["x0", "x1"]}}, b)
@@ -112,6 +112,9 @@ def configs(quick):
     one("angle-cosine", {"x0": "angle-cosine"}, "halfpi")
     for mode in ("split", "duplicate", "half"):
         one(f"to-cartesian-{mode}", {"x0": {"reparameterisation": "to-cartesian", "mode": mode}}, "0pi")
+        # bounds on which an inner rescaling step degenerates to the identity
+        one(f"to-cartesian-{mode}[unit]", {"x0": {"reparameterisation": "to-cartesian", "mode": mode}}, "unit")
+        one(f"to-cartesian-{mode}[wide]", {"x0": {"reparameterisation": "to-cartesian", "mode": mode}}, "wide")
     for conv in ("ra-dec", "az-zen"):
         b2 = "halfpi" if conv == "ra-dec" else "0pi"
         out.append((f"angle-pair-{conv}", "flow", ["x0", "x1"], ["2pi", b2], {}, {"angle-pair": {"parameters": ["x0", "x1"], "convention": conv}}, {}))
@@ -324,8 +327,17 @@ def check_state(model, prop, label, errs, quick):
                 rr.reset_inversion()
         try:
             with np.errstate(all="ignore"):
-                xp, lj = prop.rescale(pts.copy(), test=test, compute_radius=cr)
-                xr, lji = prop.inverse_rescale(xp.copy())
+                inp = pts.copy()
+                xp, lj = prop.rescale(inp, test=test, compute_radius=cr)
+                xin = xp.copy()
+                xr, lji = prop.inverse_rescale(xin)
+            # the sampler hands its live points to these maps: the arguments must come back untouched
+            if inp.tobytes() != pts.tobytes():
+                bad_f = [f for f in pts.dtype.names if inp[f].tobytes() != pts[f].tobytes()]
+                errs.append((f"rescale-modifies-the-array-it-is-given:{label}", f"fields {bad_f} ({tag})"))
+            if xin.tobytes() != xp.tobytes():
+                bad_f = [f for f in xp.dtype.names if xin[f].tobytes() != xp[f].tobytes()]
+                errs.append((f"inverse_rescale-modifies-the-array-it-is-given:{label}", f"fields {bad_f} ({tag})"))
         except Exception as e:
             errs.append((f"raises-{type(e).__name__}:{label}", f"{e} ({tag})"))
             continue
